@@ -22,23 +22,27 @@ Part of the trusted base.
 namespace Gosyn.Spec
 open Gosyn.Gen Gosyn.Model
 
-def specKeywords : List String :=
-  ["break", "default", "func", "interface", "select", "case", "defer", "go", "map", "struct",
-   "chan", "else", "goto", "package", "switch", "const", "fallthrough", "if", "range", "type",
-   "continue", "for", "import", "return", "var"]
+/-- the 25 keywords, spelled as char lists (string literals do not reduce in the kernel) -/
+def specKeywords : List (List Char) :=
+  [['b', 'r', 'e', 'a', 'k'], ['d', 'e', 'f', 'a', 'u', 'l', 't'], ['f', 'u', 'n', 'c'], ['i', 'n', 't', 'e', 'r', 'f', 'a', 'c', 'e'], ['s', 'e', 'l', 'e', 'c', 't'],
+   ['c', 'a', 's', 'e'], ['d', 'e', 'f', 'e', 'r'], ['g', 'o'], ['m', 'a', 'p'], ['s', 't', 'r', 'u', 'c', 't'],
+   ['c', 'h', 'a', 'n'], ['e', 'l', 's', 'e'], ['g', 'o', 't', 'o'], ['p', 'a', 'c', 'k', 'a', 'g', 'e'], ['s', 'w', 'i', 't', 'c', 'h'],
+   ['c', 'o', 'n', 's', 't'], ['f', 'a', 'l', 'l', 't', 'h', 'r', 'o', 'u', 'g', 'h'], ['i', 'f'], ['r', 'a', 'n', 'g', 'e'], ['t', 'y', 'p', 'e'],
+   ['c', 'o', 'n', 't', 'i', 'n', 'u', 'e'], ['f', 'o', 'r'], ['i', 'm', 'p', 'o', 'r', 't'], ['r', 'e', 't', 'u', 'r', 'n'], ['v', 'a', 'r']]
 
-def specOperators : List String :=
-  ["+", "&", "+=", "&=", "&&", "==", "!=", "(", ")",
-   "-", "|", "-=", "|=", "||", "<", "<=", "[", "]",
-   "*", "^", "*=", "^=", "<-", ">", ">=", "{", "}",
-   "/", "<<", "/=", "<<=", "++", "=", ":=", ",", ";",
-   "%", ">>", "%=", ">>=", "--", "!", "...", ".", ":",
-   "&^", "&^=", "~"]
+/-- the 48 operators and punctuation tokens, in the order of the table above -/
+def specOperators : List (List Char) :=
+  [['+'], ['&'], ['+', '='], ['&', '='], ['&', '&'], ['=', '='], ['!', '='], ['('], [')'],
+   ['-'], ['|'], ['-', '='], ['|', '='], ['|', '|'], ['<'], ['<', '='], ['['], [']'],
+   ['*'], ['^'], ['*', '='], ['^', '='], ['<', '-'], ['>'], ['>', '='], ['{'], ['}'],
+   ['/'], ['<', '<'], ['/', '='], ['<', '<', '='], ['+', '+'], ['='], [':', '='], [','], [';'],
+   ['%'], ['>', '>'], ['%', '='], ['>', '>', '='], ['-', '-'], ['!'], ['.', '.', '.'], ['.'], [':'],
+   ['&', '^'], ['&', '^', '='], ['~']]
 
 /-- `s` is an operator or punctuation token of the spec -/
-def IsSpecOp (s : List Char) : Prop := String.ofList s ∈ specOperators
+def IsSpecOp (s : List Char) : Prop := s ∈ specOperators
 /-- `s` is a keyword of the spec -/
-def IsSpecKeyword (s : List Char) : Prop := String.ofList s ∈ specKeywords
+def IsSpecKeyword (s : List Char) : Prop := s ∈ specKeywords
 
 /-- identifier syntax over given letter / digit classes (keywords are excluded separately) -/
 def IsIdentShape (letter digit : Char → Bool) : List Char → Prop
@@ -47,6 +51,9 @@ def IsIdentShape (letter digit : Char → Bool) : List Char → Prop
 
 /-- longest match among operators: `s` is an operator that is a prefix of `cs`, and no longer
     operator is -/
+instance (s : List Char) : Decidable (IsSpecOp s) := by unfold IsSpecOp; infer_instance
+instance (s : List Char) : Decidable (IsSpecKeyword s) := by unfold IsSpecKeyword; infer_instance
+
 def LongestOp (s cs : List Char) : Prop :=
   IsSpecOp s ∧ s <+: cs ∧ ∀ s', IsSpecOp s' → s' <+: cs → s'.length ≤ s.length
 
